@@ -32,7 +32,7 @@ IRREGULAR = [
 ]
 UNITS_QUICK = [('h', 'd'), ('h', 'min')]
 UNITS_THOROUGH = [('h', 'd'), ('h', 'min'), ('d', 'min'), ('d', 'h')]
-UNIT_SHAPES = ['storage', 'transport_take', 'plant', 'scaled', 'split', 'msd', 'linked', 'plant_profiles', 'chp']
+UNIT_SHAPES = ['storage', 'transport_take', 'plant', 'scaled', 'split', 'msd', 'linked', 'plant_profiles', 'chp', 'chp_heat_profiles', 'split_take_plant']
 BOUNDS = dict(quick='unit pairs %s x shapes %s (grids 6h/12h/d so that durations are exactly representable); irregular grids %s' % (UNITS_QUICK, UNIT_SHAPES, [c[0] for c in IRREGULAR]),
               thorough='unit pairs %s' % UNITS_THOROUGH)
 OUTSIDE = ['construction of the grid points by pandas (date_range, DST rules): executed concretely', 'durations that are not exactly representable in both units (EAO rounds them up, documented)']
@@ -135,6 +135,39 @@ def build_unit(D, shp, unit):
         m = eao.assets.SimpleContract(name='mP', nodes=nP, price='r', min_cap=rate('mmin', hi=0), max_cap=rate('mmax', lo=0))
         pf = eao.portfolio.Portfolio([la, m])
         prices = shapes.prices_for(D, ['p', 'q', 'r'], T)
+    elif shp == 'chp_heat_profiles':
+        # CHP with start / shutdown profiles for power AND heat (rates per grid step; ramp_freq = grid frequency)
+        T = 4
+        tg = shapes.grid(T, '6h', unit)
+        mn = rate('pmin', lo_strict=0); mx = rate('pmax', lo=0)
+        D.assume(mn <= mx)
+        nH = shapes.nodes('H')[0]
+        v = {k_: rate(k_, lo=0) for k_ in ('sl', 'su', 'dl', 'du', 'slh', 'suh', 'dlh', 'duh')}
+        for a_, b_ in (('sl', 'su'), ('dl', 'du'), ('slh', 'suh'), ('dlh', 'duh')):
+            D.assume(v[a_] <= v[b_])
+        D.assume(v['su'] <= mx); D.assume(v['du'] <= mx)
+        pl = eao.assets.CHPAsset(name='pl', nodes=[nA, nH], price='p', min_cap=mn, max_cap=mx, start_costs=D('sc', lo=0), running_costs=rate('rc', lo=0),
+                                 conversion_factor_power_heat=0.25, max_share_heat=2.0, time_already_off=dur(6.0), ramp_freq='6h',
+                                 start_ramp_lower_bounds=[v['sl']], start_ramp_upper_bounds=[v['su']], shutdown_ramp_lower_bounds=[v['dl']], shutdown_ramp_upper_bounds=[v['du']],
+                                 start_ramp_lower_bounds_heat=[v['slh']], start_ramp_upper_bounds_heat=[v['suh']],
+                                 shutdown_ramp_lower_bounds_heat=[v['dlh']], shutdown_ramp_upper_bounds_heat=[v['duh']])
+        assets = [pl, eao.assets.SimpleContract(name='mA', nodes=nA, price='q', min_cap=rate('amin', hi=0), max_cap=rate('amax', lo=0)),
+                  eao.assets.SimpleContract(name='mH', nodes=nH, price='g', min_cap=rate('hmin', hi=0), max_cap=rate('hmax', lo=0))]
+        pf = eao.portfolio.Portfolio(assets)
+        prices = shapes.prices_for(D, ['p', 'q', 'g'], T)
+    elif shp == 'split_take_plant':
+        # split optimisation of assets that read the main time unit themselves: take restriction (prorated), plant durations, discounting
+        T = 4
+        tg = shapes.grid(T, '12h', unit)
+        w = D('wacc', lo=0)
+        ct = eao.assets.Contract(name='ct', nodes=nA, price='p', min_cap=rate('cmin', hi=0), max_cap=rate('cmax', lo=0), wacc=w,
+                                 max_take=shapes.mk_take(tg, 0, 4, D('ctake', lo=0)))
+        mn = rate('pmin', lo_strict=0); mx = rate('pmax', lo=0)
+        D.assume(mn <= mx)
+        pl = eao.assets.Plant(name='pl', nodes=[nA], price='q', min_cap=mn, max_cap=mx, min_runtime=dur(24.0), start_costs=D('sc', lo=0), running_costs=rate('rc', lo=0), wacc=w)
+        m = eao.assets.SimpleContract(name='mkt', nodes=nA, price='g', min_cap=rate('mmin', hi=0), max_cap=rate('mmax', lo=0), wacc=w)
+        pf = eao.portfolio.Portfolio([ct, pl, m])
+        prices = shapes.prices_for(D, ['p', 'q', 'g'], T)
     elif shp in ('plant_profiles', 'chp'):
         T = 4
         tg = shapes.grid(T, '6h', unit)
@@ -163,7 +196,7 @@ def build_unit(D, shp, unit):
         prices = shapes.prices_for(D, ['p', 'q', 'g'], T)
     else:
         raise KeyError(shp)
-    if shp == 'split':
+    if shp in ('split', 'split_take_plant'):
         return pf.setup_split_optim_problem(pd.DataFrame(prices), tg, interval_size='d')
     return pf.setup_optim_problem(prices, tg)
 
